@@ -1,6 +1,7 @@
 package backend
 
 import (
+	"bytes"
 	"context"
 	"errors"
 	"io"
@@ -21,6 +22,7 @@ type verifStore struct {
 	data        map[imap.InternalMessageID][]byte
 	log         []string
 	faultBudget int
+	partial     bool // the last failed Set left a truncated file
 }
 
 var errVerifStore = errors.New("verif: injected store failure")
@@ -43,6 +45,12 @@ func (s *verifStore) Get(id imap.InternalMessageID) ([]byte, error) {
 }
 func (s *verifStore) Set(id imap.InternalMessageID, r io.Reader) error {
 	if s.fail("Set") {
+		if vsymBool("storeFaultAfterRead") {
+			// the write fails half way: the input is consumed and a truncated file is left behind
+			b, _ := io.ReadAll(r)
+			s.data[id] = b[:len(b)/2]
+			s.partial = true
+		}
 		return errVerifStore
 	}
 	b, err := io.ReadAll(r)
@@ -263,6 +271,10 @@ type verifLoggedStore struct {
 
 func (s *verifLoggedStore) Set(id imap.InternalMessageID, r io.Reader) error {
 	if err := s.verifStore.Set(id, r); err != nil {
+		if s.verifStore.partial {
+			s.verifStore.partial = false
+			s.w.effects = append(s.w.effects, verifEffect{"store.Set (partial)", s.w.snapStore(), nil})
+		}
 		return err
 	}
 	s.w.effects = append(s.w.effects, verifEffect{"store.Set", s.w.snapStore(), nil})
@@ -319,8 +331,11 @@ func verifRecover(w *verifWorldLog, initStore map[imap.InternalMessageID][]byte,
 	// every listed message can be fetched: its bytes are cached, or it has a remote id to download them from
 	for _, b := range d.Boxes {
 		for _, r := range b.Rows {
-			_, gerr := st.Get(r.Msg)
+			got, gerr := st.Get(r.Msg)
 			vsymAssert(gerr == nil || !ids.IsRecoveredRemoteMessageID(r.Remote), "after a crash every listed message still has its bytes (or can be re-downloaded)")
+			if gerr == nil {
+				vsymAssert(bytes.HasSuffix(got, []byte(verifLit1)) || bytes.HasSuffix(got, []byte(verifLit2)), "the cached bytes of a listed message are a complete literal (not empty or truncated)")
+			}
 			vsymAssert(d.Msg(r.Msg) != nil, "after a crash every mailbox row refers to an existing message")
 		}
 	}
